@@ -377,10 +377,14 @@ func runHistories(c *vh.Ctx, hists []*Case) {
 					left = s
 				}
 			}
+			kind := endingKind(cs, h.Hist[k], hr.reused[k])
 			if h.Hist[k].Call == "context-cancelled" && left == "unknown" {
-				left = "wherever-the-cancellation-struck"
+				left = "not-evaluated" // (a cancelled context that was never looked at, or only made a `cmd | getline` fail)
+				if kind == "context-cancelled" {
+					left = "wherever-the-cancellation-struck"
+				}
 			}
-			c.Hit("hist:previous-execution-ended:" + endingKind(cs, h.Hist[k], hr.reused[k]) + "|left-open:" + left)
+			c.Hit("hist:previous-execution-ended:" + kind + "|left-open:" + left)
 		}
 	}
 }
@@ -574,22 +578,22 @@ func (g *gen) histories(raw map[string]string, lp map[string][]string) []*Case {
 	for _, rc := range rawCases(g.pool) {
 		hs = append(hs, g.rawHistory(rc))
 	}
-	for i := 0; i < g.c.N(60, 800); i++ {
+	for i := 0; i < g.c.N(100, 1000); i++ {
 		hs = append(hs, g.modelHistory(g.traceCase()))
 	}
-	for i := 0; i < g.c.N(160, 2500); i++ {
+	for i := 0; i < g.c.N(250, 3000); i++ {
 		hs = append(hs, g.modelHistory(g.rangeCase()))
 	}
-	for i := 0; i < g.c.N(60, 800); i++ {
+	for i := 0; i < g.c.N(100, 1000); i++ {
 		hs = append(hs, g.modelHistory(g.argvCase()))
 	}
-	for i := 0; i < g.c.N(400, 6000); i++ {
+	for i := 0; i < g.c.N(700, 8000); i++ {
 		hs = append(hs, g.modelHistory(g.mixedCase()))
 	}
-	for i := 0; i < g.c.N(200, 3000); i++ {
+	for i := 0; i < g.c.N(350, 4000); i++ {
 		hs = append(hs, g.specialHistory(raw))
 	}
-	for i := 0; i < g.c.N(6, 30); i++ {
+	for i := 0; i < g.c.N(8, 40); i++ {
 		hs = append(hs, g.longHistory(lp))
 	}
 	return hs
